@@ -2,6 +2,9 @@
 
 Part A (layer D, exact): constructor weight normalisation + _NearestGridAssigner against
 Model/SparseKDE.v, compared with `=` inside Coq on dyadic data.
+Parts B, C: mixture formula / bandwidth pipeline of fitted estimators against Model/SparseKDEA.v.
+Part H: histories of set / fit / score / reads on ONE estimator object against the state machine of
+Model/SparseKDEH.v (refit = fresh fit, caches coherent); every fit of a history is also a B/C case.
 """
 import math
 from fractions import Fraction
@@ -301,6 +304,41 @@ def part_bc(ctx, stats):
             st["fit_errors"][r["error"]] = st["fit_errors"].get(r["error"], 0) + 1
         if "score_error" in r:
             st["score_errors"][r["score_error"]] = st["score_errors"].get(r["score_error"], 0) + 1
+    # ---- histories on one object: every fit of a history is ALSO an ordinary case (fresh object) ----
+    hists = []
+    for _ in range(40 if ctx.quick else 400):
+        h = K.gen_history(ctx.rng, ctx.quick)
+        views = K.history_fit_views(h)
+        cut = None
+        for k, c in views:
+            try:
+                if len(c["G"]) < 2 or K.predicted_nontermination(c, K.grid_weights_only(c)):
+                    cut = k
+                    break
+            except Exception:  # noqa
+                cut = k
+                break
+        if cut is not None:            # known finding tuner-nontermination: end the history before that fit
+            st["skipped_predicted_nontermination"] += 1
+            h["steps"] = h["steps"][:cut]
+            while h["steps"] and h["steps"][-1]["op"] == "set":
+                h["steps"].pop()
+            views = K.history_fit_views(h)
+        if not views:
+            continue
+        fresh = {}
+        for k, c in views:
+            if not c["Q"]:
+                c["Q"] = [list(c["G"][0])]
+            est, r = K.fit_impl(c)
+            if est is not None:
+                K.score_impl(est, c, r)
+            cases.append(c)
+            recs.append(r)
+            fresh[k] = (c, r)
+            st["kinds"]["history:" + c["kind"]] = st["kinds"].get("history:" + c["kind"], 0) + 1
+        hists.append((h, fresh))
+    st["cases"] = len(cases) + st["skipped_predicted_nontermination"]
     # ---- search with the property oracles (every case) ------------------------------------
     seen_cat = set()
     failed_cases = set()
@@ -415,8 +453,148 @@ def part_bc(ctx, stats):
             C.report_violation(ctx, "C17 part B: correspondence mixture model vs implementation broken",
                                rep, found_input=False)
     part_c(ctx, cases, recs, st)
+    part_h(ctx, hists, st)
     stats["mixture_bandwidth"] = st
     return cases, recs
+
+
+# =============================================================================== part H (histories)
+SHARD_H = (C.SHARD_HEAD + "From Verif Require Import ListX MExp SparseKDEA SparseKDEH.\n"
+           "From Coq Require Import ZArith List PrimFloat.\nImport ListNotations.\nOpen Scope float_scope.\n")
+
+
+def _kpars(c, weights):
+    return "(mk_kpars fops %s %s %s %d%%Z)" % (ocell(c["cell"]), C.fmat(c["D"]), C.flist(weights), c["d"])
+
+
+def hist_case_coq(h, obs, fresh):
+    """hist_case_ok literal: fresh-fit table, numpy inverse / log-det hints of the fresh bandwidths,
+    the operations and what the ONE object answered"""
+    ks = sorted(fresh)
+    row = {k: i for i, k in enumerate(ks)}
+    tab, hints = [], []
+    for k in ks:
+        c, r = fresh[k]
+        H = np.array(r["bandwidth"], dtype=float)
+        tab.append("(mk_kfit fops %s %s %s %s)" % (C.fmat(c["G"]), C.flist(r["W"]), natmat(r["members"]),
+                                                  fmats(r["bandwidth"])))
+        Hinv = [np.linalg.inv(x).tolist() for x in H]
+        nk = [c["d"] * math.log(2 * math.pi) + float(np.linalg.slogdet(x)[1]) for x in H]
+        hints.append("(%s, %s)" % (fmats(Hinv), C.flist(nk)))
+    ops, ob = [], []
+    nextfit, nxt = {}, None
+    for k in reversed(range(len(h["steps"]))):
+        if h["steps"][k]["op"] == "fit":
+            nxt = k
+        nextfit[k] = nxt
+    for k, (stp, o) in enumerate(zip(h["steps"], obs)):
+        if stp["op"] == "fit":
+            ops.append("OFit %d%%nat" % row[k])
+            ob.append("HNone")
+        elif stp["op"] == "set":
+            c, r = fresh[nextfit[k]]
+            ops.append("OSet %s" % _kpars(c, r["weights"]))
+            ob.append("HNone")
+        elif stp["op"] == "peek":
+            ops.append("OPeek")
+            ob.append("(HState %s %s)" % (fmats(o["H"]), C.flist(o["W"])))
+        else:
+            ops.append("OScore %s" % C.fmat(stp["Q"]))
+            ob.append("(HScores %s %s)" % (C.flist(o["scores"]), C.fl(o["score"])))
+    c0, r0 = fresh[ks[0]]
+    return "hist_case_ok 0x1p-27 0x1p-27 0x1p-24 %d%%nat [%s] [%s] %s [%s] [%s]" % (
+        h["d"], "; ".join(tab), "; ".join(hints), _kpars(c0, r0["weights"]), "; ".join(ops), "; ".join(ob))
+
+
+def _slim_obs(obs):
+    return [_slim(o) if "grids" in o else o for o in obs]
+
+
+def check_history(h, fresh_recs=None):
+    """run the history on one object and state C17 on it after every step.
+    Returns (property message, state-machine message, stats, observations, fresh records)."""
+    obs = K.history_impl(h)
+    if fresh_recs is None:
+        fresh_recs = {}
+        for k, c in K.history_fit_views(h):
+            _e, r = K.fit_impl(c)
+            fresh_recs[k] = r
+    m1, m2, hs = K.oracle_history(h, obs, fresh_recs)
+    return m1, m2, hs, obs, fresh_recs
+
+
+def part_h(ctx, hists, st):
+    """histories of set / fit / score / peek on ONE estimator object (Model/SparseKDEH.v)"""
+    hst = dict(histories=len(hists), fits=0, refits=0, scores=0, peeks=0, sets=0, same_size_refits=0,
+               refit_with_empty_caches=0, sent=0, validated=0, skipped_illcond=0, skipped_error=0)
+    send = []
+    prop_reported = mach_reported = False
+    for h, fresh in hists:
+        m1, m2, hs, obs, _f = check_history(h, {k: r for k, (c, r) in fresh.items()})
+        for key in ("fits", "refits", "scores", "peeks"):
+            hst[key] += hs[key]
+        hst["sets"] += sum(1 for s_ in h["steps"] if s_["op"] == "set")
+        prevfit, scored = None, False
+        for s_ in h["steps"]:
+            if s_["op"] == "fit":
+                if prevfit is not None:
+                    hst["same_size_refits"] += len(prevfit["G"]) == len(s_["G"])
+                    hst["refit_with_empty_caches"] += not scored
+                prevfit, scored = s_, False
+            elif s_["op"] == "score":
+                scored = True
+        if m1:
+            if not prop_reported:
+                prop_reported = True
+                C.report_violation(ctx, "C17 fails on the implementation (history on one estimator object): " + m1,
+                                   dict(case=h, observed=_slim_obs(obs)), found_input=True)
+            continue
+        if m2:
+            if not mach_reported:
+                mach_reported = True
+                C.report_violation(ctx, "C17 part H: correspondence refit = fresh fit (state machine) broken: " + m2,
+                                   dict(case=h, observed=_slim_obs(obs),
+                                        note="the property oracles accept the object's state and outputs"),
+                                   found_input=False)
+            continue
+        if len(obs) < len(h["steps"]) or any("error" in o or "score_error" in o for o in obs):
+            hst["skipped_error"] += 1          # a fit outside the proviso ended the history
+            continue
+        ok = True
+        for k, (c, r) in fresh.items():
+            if "error" in r or "score_error" in r:
+                ok = False
+                break
+            H = np.array(r["bandwidth"], dtype=float)
+            if not np.all(np.isfinite(H)) or any(np.linalg.cond(x) > 1e6 for x in H) \
+                    or any(K.mixture_reference(c, r)[1]) or not sum(r["W"]) > 0:
+                ok = False
+                break
+        if not ok:
+            hst["skipped_illcond"] += 1
+            continue
+        send.append((h, obs, fresh))
+    per = 14
+    groups = [send[i:i + per] for i in range(0, len(send), per)]
+    shards = [SHARD_H + "Definition verdicts : list bool := [\n %s].\nEval vm_compute in (failing verdicts).\n"
+              % ";\n ".join(hist_case_coq(h, obs, fresh) for (h, obs, fresh) in g) for g in groups]
+    outs = C.run_shards(ctx.prop + "h", shards)
+    bad = []
+    for g, (rc, out) in zip(groups, outs):
+        lists = C.parse_nat_lists(out)
+        if rc != 0 or len(lists) != 1:
+            C.report_violation(ctx, "C17 part H: correspondence shard did not evaluate",
+                               dict(coq_output=out[-1500:]), found_input=False)
+            continue
+        bad += [g[k] for k in lists[0]]
+    hst["sent"] = len(send)
+    hst["validated"] = len(send) - len(bad)
+    for (h, obs, fresh) in bad[:1]:
+        C.report_violation(ctx, "C17 part H: correspondence state-machine model vs implementation broken "
+                           "(%d of %d histories)" % (len(bad), len(send)),
+                           dict(case=h, observed=_slim_obs(obs), correspondence="hist_case_ok (Model/SparseKDEH.v)",
+                                note="the property oracles accept every step of the history"), found_input=False)
+    st["histories"] = hst
 
 
 def bw_case_coq(case, rec):
@@ -582,8 +760,11 @@ def run(ctx):
                distinct_nontrivial=A["nontrivial"] + B["kde_validated"] + B["bw_validated"],
                rule="part A: distinct input with >= 2 grid points and >= 2 distinct labels; parts B/C: distinct fitted "
                     "estimators (>= 2 distinct grid points, 8+ descriptors) whose mixture values / bandwidths were "
-                    "reproduced by the Coq model within rtol 2^-27",
-               traces_validated_against_impl=A["validated"] + B["kde_validated"] + B["bw_validated"],
+                    "reproduced by the Coq model within rtol 2^-27 (every fit of a generated history counts as one "
+                    "such estimator; the histories themselves - one object, state machine of Model/SparseKDEH.v - are "
+                    "counted under distribution.mixture_bandwidth.histories)",
+               traces_validated_against_impl=A["validated"] + B["kde_validated"] + B["bw_validated"]
+               + B["histories"]["validated"],
                samples=samples, distribution=stats, anchor_drift=changed)
     return C.finish(ctx, "proof", cov, [
         "layer D is exact over Z/Q; rounding outside the dyadic domain is not covered",
@@ -604,6 +785,11 @@ def replay(ctx, obj):
             c = dict(c, transformed_case=obj["transformed_case"])
         fails, _r = check_fit_case(c, random.Random(17))
         msg = "; ".join("%s: %s" % (f[0], f[1]) for f in fails) or None
+    elif c.get("part") == "H":
+        m1, m2, _hs, _obs, _f = check_history(c)
+        msg = m1
+        if m2:
+            print("replay: state machine:", m2)
     else:
         print("replay: unknown case kind")
         return 2
